@@ -5,7 +5,7 @@
    words shorter than 2^31 items) and from read_with_delta / Delta::create on accepted values. *)
 From LibTw2 Require Import Base.Res Model.Varint Model.Packer Model.Snap
   Proofs.SnapBase Proofs.SnapRep Proofs.SnapDelta Proofs.SnapApply Proofs.SnapTotal Proofs.SnapTotal2
-  Proofs.SnapSer Proofs.SnapReg Proofs.SnapObs Proofs.SnapBuilder Proofs.SnapC11.
+  Proofs.SnapSer Proofs.SnapReg Proofs.SnapObs Proofs.SnapBuilder Proofs.SnapC11 Proofs.SnapAlloc.
 From Coq Require Import ZArith List Lia.
 Import ListNotations.
 Open Scope Z_scope.
@@ -87,6 +87,24 @@ Proof.
     apply (wpost_fine _ _ (snap_read_with_delta_good S d G D)).
 Qed.
 
+(* PARTIAL (allocation clause).  Full statement wanted: work and allocation of each reader are
+   <= c * length input, on a cost-instrumented model.  Proved here: whatever a reader returns holds
+   no more words (buffer words + map/set entries) than the input had units - every buffer the code
+   grows while reading is one of these and only grows, so this bounds the allocation of successful
+   reads.  Missing: the transient state of failing reads (the model does not expose it), the
+   scratch Vec<i32> of RawSnap::read (one word per decoded int, <= input bytes) and the real
+   allocator (Vec doubling, BTreeMap nodes) - those are covered by the harness' allocation meter
+   on the real code (peak live bytes <= 48 x input bytes + 4 KiB on every hostile input). *)
+Theorem C11_alloc_partial :
+  (forall ints S ws, raw_read_from_ints ints = (Ok S, ws) -> held S <= Z.of_nat (length ints))
+  /\ (forall bs S ws, bytes_ok bs = true -> raw_read_bytes bs = (Ok S, ws) -> held S <= Z.of_nat (length bs))
+  /\ (forall sz ints d ws, delta_read_from_ints sz ints = (Ok d, ws) -> dheld d <= Z.of_nat (length ints) + 1)
+  /\ (forall sz bs d ws, bytes_ok bs = true -> delta_read_bytes sz bs = (Ok d, ws) -> dheld d <= Z.of_nat (length bs) + 1).
+Proof.
+  split; [exact read_from_ints_size|]. split; [exact read_bytes_size|].
+  split; [exact delta_read_from_ints_size|exact delta_read_bytes_size].
+Qed.
+
 (* the hypotheses are met by concrete values: a snapshot with a UUID registry item, a type beyond
    0x4000, a delta, and a rejected input for each of the repaired defects *)
 Definition exInts : list Z := [40; 3; 0; 20; 32; 16384; 1; 2; 3; 4; 327681; 9; 9; 1073741831; 7].
@@ -108,4 +126,5 @@ Proof. vm_compute. repeat split. Qed.
 Print Assumptions C11_total.
 Print Assumptions C11_limits.
 Print Assumptions C11_reusable.
+Print Assumptions C11_alloc_partial.
 Print Assumptions C11_nonvacuous.
